@@ -215,6 +215,33 @@ func inspectUnmeasured(m *diam.Message, render bool) *ev.Failure {
 		if f := guard("String", func() { _ = m.String() }); f != nil {
 			return f
 		}
+		// the String method of every decoded value, called directly: package fmt recovers a
+		// panicking Stringer (and prints a marker instead), a caller that logs `a.Data.String()`
+		// or `a.Data` through another route does not
+		var walk func(avps []*diam.AVP, depth int) *ev.Failure
+		walk = func(avps []*diam.AVP, depth int) *ev.Failure {
+			for _, a := range avps {
+				if a == nil || a.Data == nil {
+					continue
+				}
+				if g, ok := a.Data.(*diam.GroupedAVP); ok {
+					if depth < 64 {
+						if f := walk(g.AVP, depth+1); f != nil {
+							return f
+						}
+					}
+					continue
+				}
+				a := a
+				if f := guard(fmt.Sprintf("Data.String of a decoded %T", a.Data), func() { _ = a.Data.String() }); f != nil {
+					return f
+				}
+			}
+			return nil
+		}
+		if f := walk(m.AVP, 0); f != nil {
+			return f
+		}
 		if f := guard("PrettyDump", func() { _ = m.PrettyDump() }); f != nil {
 			return f
 		}
@@ -690,6 +717,36 @@ func TestC03EveryAddressFamily(t *testing.T) {
 				a := refcodec.EncodeAVP(&refcodec.Node{Code: 257, Flags: 0x40, Payload: refcodec.Address(uint16(f), make([]byte, n))})
 				if !yield(Case{Dict: gen.DictChoice{Name: "default"}, Wire: append(hdr(uint32(20+len(a))), a...), Tags: []string{"address-family-enumeration"}}) {
 					return
+				}
+			}
+		}
+	})
+}
+
+// One AVP of every data type of the base dictionary whose payload is ONE byte value repeated - all
+// 256 values, lengths around every width a decoder or renderer could treat specially (4, 8, 16,
+// 18, the 128 bytes a log line might abbreviate to, the 1 KiB pooled buffer): a run of
+// continuation bytes, of 0xFF, of NULs is what random and mutated-valid payloads never contain.
+func TestC03UniformPayloads(t *testing.T) {
+	hdr := func(l uint32) []byte {
+		return refcodec.EncodeHeader(refcodec.Header{Version: 1, Flags: 0x80, Code: 257, App: 0, HopByHop: 1, EndToEnd: 2, Length: l})
+	}
+	// Product-Name UTF8String, Origin-Host DiameterIdentity, Host-IP-Address Address, Class OctetString, Event-Timestamp Time,
+	// Result-Code Unsigned32, Redirect-Host DiameterURI, Acct-Sub-Session-Id Unsigned64, Accounting-Record-Type Enumerated,
+	// Failed-AVP Grouped, Session-Id UTF8String, an undefined code, Error-Message UTF8String
+	codes := []uint32{269, 264, 257, 25, 55, 268, 292, 287, 480, 279, 263, 999999, 281}
+	lens := []int{0, 1, 4, 127, 128, 129, 130, 1024}
+	if ev.Thorough() {
+		lens = []int{0, 1, 2, 3, 4, 5, 8, 12, 16, 18, 20, 64, 127, 128, 129, 130, 200, 255, 256, 257, 1003, 1004, 1024, 4097}
+	}
+	structured.Enumerate(t, false, func(yield func(Case) bool) {
+		for _, code := range codes {
+			for v := 0; v < 256; v++ {
+				for _, n := range lens {
+					a := refcodec.EncodeAVP(&refcodec.Node{Code: code, Flags: 0x40, Payload: bytes.Repeat([]byte{byte(v)}, n)})
+					if !yield(Case{Dict: gen.DictChoice{Name: "default"}, Wire: append(hdr(uint32(20+len(a))), a...), Tags: []string{"uniform-payload-enumeration"}}) {
+						return
+					}
 				}
 			}
 		}
